@@ -579,8 +579,59 @@ let run_schemaresolve payload =
        L [A "ok"; L (A "entities" :: List.map parse ents); L (A "actions" :: List.map parse acts)])
   | _ -> failwith "schemaresolve payload"
 
+(* ---- typeof: the expression type checker in one request environment ---- *)
+let rec cty_of_rsx (s : Sexp.t) : cty =
+  match s with
+  | L [A "string"] -> CString | L [A "long"] -> CLong | L [A "bool"] -> CBool
+  | L [A "ext"; A n] -> CExt (str_of_atom n)
+  | L [A "set"; t] -> CSet (cty_of_rsx t)
+  | L (A "rec" :: fs) -> CRec (crec_of_rsx fs)
+  | L [A "ent"; A r] -> CEnt [str_of_atom r]
+  | s -> failwith ("bad resolved type " ^ to_string s)
+and crec_of_rsx fs = List.map (function L [A k; t; A o] -> (str_of_atom k, (cty_of_rsx t, o <> "1")) | _ -> failwith "rec field") fs
+
+let bytes_of_str (s : Model.z list) : Stdlib.String.t = String.concat "" (List.map (fun c -> String.make 1 (Char.chr (int_of_cz c))) s)
+
+let rec cty_name (t : cty) : Stdlib.String.t =
+  match t with
+  | CNever -> "__cedar::internal::Never" | CTrue -> "__cedar::internal::True" | CFalse -> "__cedar::internal::False"
+  | CBool -> "Bool" | CLong -> "Long" | CString -> "String"
+  | CSet e -> "Set<" ^ cty_name e ^ ">"
+  | CRec [] -> "{}"
+  | CRec fs ->
+    let fs = List.sort (fun (a, _) (b, _) -> compare (bytes_of_str a) (bytes_of_str b)) fs in
+    "{" ^ String.concat "" (List.map (fun (k, (t, req)) -> bytes_of_str k ^ (if req then "" else "?") ^ ": " ^ cty_name t ^ ",") fs) ^ "}"
+  | CEnt [x] -> bytes_of_str x
+  | CEnt l -> "__cedar::internal::Union<" ^ String.concat ", " (List.map bytes_of_str l) ^ ">"
+  | CExt n -> bytes_of_str n
+
+let atom_of_bytes (s : Stdlib.String.t) : Stdlib.String.t =
+  let b = Buffer.create 16 in Buffer.add_char b 'x'; String.iter (fun c -> Buffer.add_string b (Printf.sprintf "%02x" (Char.code c))) s; Buffer.contents b
+
+let run_typeof payload =
+  match payload with
+  | [_; L [A "info"; L (A "entities" :: es); L (A "enums" :: ens); L (A "actions" :: acts)]; A mode; A pt; act; A rt; e] ->
+    let sch = { ts_entities = List.map (function
+        | L [A n; L (A "parents" :: ps); L [A "shape"; L (A "rec" :: fs)]; L [A "tags"; tg]] ->
+          (str_of_atom n, { te_parents = List.map (fun p -> str_of_atom (atom p)) ps; te_shape = crec_of_rsx fs;
+                            te_tags = (match tg with A "none" -> None | t -> Some (cty_of_rsx t)) })
+        | _ -> failwith "info entity") es;
+        ts_enums = List.map (fun x -> str_of_atom (atom x)) ens;
+        ts_actions = List.map (function L [L [A "e"; A t; A i]; _] -> (str_of_atom t, str_of_atom i) | _ -> failwith "info action") acts } in
+    let (at, ai) = match act with L [A "e"; A t; A i] -> (str_of_atom t, str_of_atom i) | _ -> failwith "action uid" in
+    let ctx = List.fold_left (fun acc a -> match a with
+        | L [L [A "e"; A t; A i]; L [A "context"; L (A "rec" :: fs)]] when str_of_atom t = at && str_of_atom i = ai -> crec_of_rsx fs
+        | _ -> acc) [] acts in
+    let env = { tv_principal = str_of_atom pt; tv_action = (at, ai); tv_resource = str_of_atom rt; tv_context = ctx } in
+    (match typeof (mode = "strict") sch env (expr_of_sx e) [] with
+     | TOk (t, _) -> L [A "ok"; A (atom_of_bytes (cty_name t))]
+     | TErr -> L [A "err"]
+     | TUnk -> L [A "unmodelled"])
+  | _ -> failwith "typeof payload"
+
 let run_case kind payload =
   match kind with
+  | "typeof" -> run_typeof payload
   | "schemaresolve" -> run_schemaresolve payload
   | "pjsonenc" -> run_pjsonenc payload
   | "pjsondec" -> run_pjsondec payload
